@@ -1,37 +1,57 @@
 #!/bin/bash
-# selftest.sh [tier]: regression of the machinery itself.
+# selftest.sh [lanes]: regression of the machinery itself (quick tier).
 #  1. every check on the unchanged tree must exit 0 with no VIOLATION line;
 #  2. every seeded change (seeded/<ID>-n) and every reverse patch of a fix (mutants/revert-<ID>-*) must make the
-#     check of its property exit 1 with a VIOLATION line.
-# Writes selftest/RESULT.txt. /repo is left as found (patches are applied with git apply and undone with checkout).
-TIER="${1:-quick}"
+#     check of its property exit 1 with a VIOLATION line (reverse patches: the repository's test suite must pass).
+# /repo and /verif are not touched: every lane works in its own scratch worktree of /repo HEAD and its own copy of
+# /verif under $SELFROOT (default /tmp/selftest), removed at the end.  Writes selftest/RESULT.txt.
+LANES="${1:-3}"
+ROOT="${SELFROOT:-/tmp/selftest}"
+export GOFLAGS=-mod=mod GOPROXY=off GOSUMDB=off GOTOOLCHAIN=local
 cd /verif || exit 2
-mkdir -p selftest .work
+mkdir -p selftest "$ROOT"
 OUT=selftest/RESULT.txt
-: > $OUT
-if [ -n "$(git -C /repo status --porcelain --untracked-files=no)" ]; then echo "/repo not clean"; exit 2; fi
+HEAD=$(git -C /repo rev-parse --short HEAD)
+# work list
+: > "$ROOT/jobs"
+for ID in C01 C02 C03 C04 C05 C06 C07 C08 C09 C10 C11 C12 C13 C14 C15 C16 C17 C18 C19 C20; do echo "clean $ID $ID" >> "$ROOT/jobs"; done
+for d in seeded/C*/; do N=$(basename $d); echo "seed $N ${N%-*}" >> "$ROOT/jobs"; done
+for d in mutants/revert-*/; do N=$(basename $d); echo "mutant $N $(echo $N | cut -d- -f2)" >> "$ROOT/jobs"; done
+lane() {
+  L=$1; WT="$ROOT/wt$L"; VD="$ROOT/verif$L"
+  git -C /repo worktree add --detach "$WT" HEAD >/dev/null 2>&1
+  rsync -a --delete --exclude .work --exclude .git --exclude replays --exclude evidence --exclude selftest /verif/ "$VD/"; mkdir -p "$VD/.work" "$VD/evidence"
+  awk -v l=$L -v n=$LANES 'NR%n==l%n' "$ROOT/jobs" | while read KIND NAME ID; do
+    ( cd "$WT" && git checkout -q -- . )
+    SUITE=-
+    case $KIND in
+      seed)   ( cd "$WT" && git apply --exclude='out/*' /verif/seeded/$NAME/patch.diff ) || { echo "seed=$NAME check=$ID PATCH DOES NOT APPLY" >> "$ROOT/res$L"; continue; } ;;
+      mutant) ( cd "$WT" && git apply /verif/mutants/$NAME/patch.diff ) || { echo "mutant=$NAME check=$ID PATCH DOES NOT APPLY" >> "$ROOT/res$L"; continue; }
+              ( cd "$WT" && go build ./... && go test -vet=off -count=1 ./sdf ./render ./vec/v3 >/dev/null 2>&1 ); SUITE=$? ;;
+    esac
+    VERIF_DIR="$VD" VERIF_REPO="$WT" "$VD/vcheck" $ID quick > "$VD/.work/self.$NAME.log" 2>&1; RC=$?
+    NV=$(grep -c '^VIOLATION' "$VD/.work/self.$NAME.log")
+    case $KIND in
+      clean)  echo "clean $ID exit=$RC violations=$NV known=$(grep -c '^KNOWN-FINDING' "$VD/.work/self.$NAME.log") :: $(grep "^$ID tier=" "$VD/.work/self.$NAME.log" | tail -1 | cut -c1-160)" >> "$ROOT/res$L" ;;
+      seed)   echo "seed=$NAME check=$ID tier=quick exit=$RC $NV violation lines" >> "$ROOT/res$L" ;;
+      mutant) echo "mutant=$NAME check=$ID suite_exit=$SUITE check_exit=$RC $NV violation lines" >> "$ROOT/res$L" ;;
+    esac
+  done
+  git -C /repo worktree remove --force "$WT" >/dev/null 2>&1; rm -rf "$VD"
+}
+rm -f "$ROOT"/res*
+for L in $(seq 1 $LANES); do lane $L & done
+wait
+{ echo "== tree $HEAD, quick tier, $(wc -l < "$ROOT/jobs") jobs in $LANES lanes (scratch worktrees under $ROOT)"
+  echo "== unchanged tree"; cat "$ROOT"/res* | grep '^clean ' | sort
+  echo "== seeded changes"; cat "$ROOT"/res* | grep '^seed=' | sort -V
+  echo "== reverse patches of fixes"; cat "$ROOT"/res* | grep '^mutant=' | sort; } > $OUT
 FAIL=0
-echo "== unchanged tree ($(git -C /repo rev-parse --short HEAD)), tier $TIER" >> $OUT
-for ID in C01 C02 C03 C04 C05 C06 C07 C08 C09 C10 C11 C12 C13 C14 C15 C16 C17 C18 C19 C20; do
-  ./vcheck $ID $TIER > .work/self.$ID.log 2>&1; RC=$?
-  NV=$(grep -c '^VIOLATION' .work/self.$ID.log)
-  [ $RC -ne 0 -o $NV -ne 0 ] && FAIL=1
-  echo "clean $ID exit=$RC violations=$NV known=$(grep -c '^KNOWN-FINDING' .work/self.$ID.log) :: $(tail -1 .work/self.$ID.log | cut -c1-160)" >> $OUT
-done
-echo "== seeded changes" >> $OUT
-for d in seeded/C*/; do
-  N=$(basename $d); ID=${N%-*}
-  L=$(scripts/seedrun.sh $N $ID quick | head -1)
-  case "$L" in *"exit=1 "*) ;; *) FAIL=1;; esac
-  echo "$L" >> $OUT
-done
-echo "== reverse patches of fixes" >> $OUT
-for d in mutants/revert-*/; do
-  N=$(basename $d); ID=$(echo $N | cut -d- -f2)
-  L=$(scripts/mutantrun.sh $N $ID quick | head -1)
-  case "$L" in *"check_exit=1 "*) ;; *) FAIL=1;; esac
-  echo "$L" >> $OUT
-done
+grep '^clean ' $OUT | grep -v 'exit=0 violations=0' >/dev/null && FAIL=1
+grep '^seed=' $OUT | grep -v 'exit=1 ' >/dev/null && FAIL=1
+grep '^mutant=' $OUT | grep -v 'suite_exit=0 check_exit=1 ' >/dev/null && FAIL=1
+[ "$(grep -c '^clean \|^seed=\|^mutant=' $OUT)" -eq "$(wc -l < "$ROOT/jobs")" ] || FAIL=1
 echo "== overall: $([ $FAIL -eq 0 ] && echo PASS || echo FAIL)" >> $OUT
+git -C /repo worktree prune; rm -rf "$ROOT"
 tail -1 $OUT
 exit $FAIL
